@@ -704,6 +704,18 @@ def run(run):
     firstpassing(run, fx)
     dirreaders(run, fx)
     posdirsource(run, fx)
+    from .util import share as _share
+    if not getattr(run, '_sharing', False):
+        run._sharing = True
+        try:
+            _share(run, 'c04', ['DETACH', 'LISTOPS'], 'ATTRSEM')       # deletions and attachments do what the rule says (shared with C04)
+            _share(run, 'c07', ['DRIVERS', 'SIG'], 'PURECONSTRAINT')    # both interpreters execute the specified opcode semantics (shared with C07)
+            _share(run, 'c03', ['GIDCLAMP'], 'PRECEDENCE')              # class lookups of the substitutions (shared with C03)
+            _share(run, 'c02', ['LOOPLIMIT'], 'PASSORDER')              # the per-pass rule loop and its high-water mark (shared with C02)
+        finally:
+            run._sharing = False
+    from . import validators as validators_
+    validators_.check(run, fx, 'PRECEDENCE')        # the FSM tables a pass matches with are the ones the loader accepted (shared with C01)
     if not run.cfg_tag:
         from . import c02 as c02s_
         c02s_.attrstride(run, 'ATTRSEM')          # a user attribute a rule set is what a later constraint reads, also while a log is open (shared with C02)
